@@ -43,7 +43,7 @@ type pendingOp struct {
 	wgCell     *value
 	rw         *rwState
 
-	site string // where the goroutine is parked (for deadlock reports)
+	fr   *frame // where the goroutine is parked (site computed lazily for deadlock reports)
 	obj  interface{} // sync object the segment after a plain yield point touches first
 	wild bool        // yield point dependent with everything (vYield, Gosched)
 
@@ -384,12 +384,12 @@ func (s *scheduler) dispatch(from *goroutine) {
 		desc := ""
 		for _, g := range s.gs {
 			if !g.done && g.op != nil {
-				desc += fmt.Sprintf(" g%d(%s):%s at %s;", g.id, g.name, opName(g.op), g.op.site)
+				desc += fmt.Sprintf(" g%d(%s):%s at %s;", g.id, g.name, opName(g.op), s.ps.siteOf(g.op.fr))
 			}
 		}
 		site := ""
 		if s.main.op != nil {
-			site = s.main.op.site
+			site = s.ps.siteOf(s.main.op.fr)
 		}
 		s.ps.violation("deadlock", "all goroutines blocked:"+desc, site, nil)
 		ap := abortPath{"violation", "deadlock"}
